@@ -15,6 +15,14 @@ def fuzz(pkg, run, t="45s"):
     return {"pkg": pkg, "run": run, "kind": "fuzz", "tiers": ("thorough",), "fuzztime": {"thorough": t}}
 
 CHECKS = {
+    "C04": {
+        "level": "exploration",
+        "assumptions": ["the gate handler serialises the schedule at handler granularity; instruction-level interleavings inside acquire/release are only sampled by the real-goroutine variant", "porcupine's linearizability checker is trusted"],
+        "jobs": [
+            rapid("props/c04", "^TestC04_Schedules$", 1500, 15000, shards_t=8),
+            rapid("props/c04", "^TestC04_ConcurrentLinearizable$", 150, 2000, shards_t=6, race=True),
+        ],
+    },
     "C14": {
         "level": "exploration",
         "assumptions": ["frozen clock", "capacity-pressure histories keep requests >= 1 s apart (unique expiry order) and shorter than an entry's own lifetime", "both readings of 'nearest to expiry' (re-armed on use / fixed at creation) are accepted"],
@@ -75,6 +83,11 @@ CHECKS = {
 
 # Texts for MANIFEST.json (level text, trusted base, technique) per claimed property.
 MANIFEST_TEXT = {
+    "C04": {
+        "level": "Generated schedules with the harness owning the interleaving (gate handler: enter / block / return or panic) are compared step by step with a per-source in-flight counter model in both directions (never above the limit, never rejected below it), including slot return after panics and a drain-and-refill epilogue; unserialised real goroutines (race build) produce acquire/release histories checked for linearizability against the same model with porcupine. Exploration: handler-granular schedules up to 40 steps, sampled goroutine interleavings.",
+        "note": "Trusts the gate harness (a step that neither enters nor returns within 20 s of real time is reported as infrastructure failure, not as a verdict) and porcupine v1.3.0.",
+        "technique": "stateful property-based testing with a harness-owned schedule (rapid) + linearizability checking of recorded concurrent histories (porcupine)",
+    },
     "C14": {
         "level": "Non-interference by projection: generated interleavings of 2-6 sources are run once together and once per source alone on a fresh limiter along the same frozen time-line (rate limiter) or the same start/finish schedule through a gate handler (connection limiter, amounts 1-3, panicking handlers); decision sequences must be equal. Capacity pressure is checked in lock-step against a reference built from an eviction model plus one real single-source limiter per incarnation; the TTL map is checked against a reference map. Exploration of bounded histories.",
         "note": "Trusts the eviction reference model (two accepted readings) and the frozen clock; ties in expiry are avoided by construction or resolved by probing.",
